@@ -678,7 +678,7 @@ func (self *Compiler) compileInterface(p *ir.Program, vt reflect.Type) {
 	}
 
 	x := p.PC()
-	p.Add(ir.OP_is_nil_p1)
+	p.Add(ir.OP_is_nil)
 	p.Add(ir.OP_iface)
 
 	/* the "null" value */
